@@ -590,15 +590,20 @@ def plan(prop, tier, seed, budget):
         P['builds'] = list(P['builds']) + [(h, 'rel') for (h, v) in P['builds'] if v == 'asan' and h in HARNESS and (h, 'rel') not in P['builds']]
         if (('c06', 'asan') in P.get('optional_builds', [])):
             P['optional_builds'] = list(P['optional_builds']) + [('c06', 'rel')]
-    fh = FAULT_HARNESS.get(prop)
-    if fh:
-        P['jobs'] = list(P['jobs']) + [g7_jobs(fh, 250 if q else 4000, workers=2 if q else 4, pair_max=12)]
+    fhs = FAULT_HARNESS.get(prop)
+    if fhs:
+        for fh in ([fhs] if isinstance(fhs, str) else fhs):
+            P['jobs'] = list(P['jobs']) + [g7_jobs(fh, 250 if q else 4000, workers=2 if q else 4, pair_max=12)]
         P['rule'] += (' Fault dimension: generated scripts are also re-run with every single library allocation request refused, every '
                       'suffix refused and every pair (scripts of <= 12 requests), judged by this property\'s own clauses (an operation '
                       'that fails in its documented way leaves the model unchanged).')
     return P
 
-FAULT_HARNESS = {'C03': 'hash', 'C04': 'hash', 'C19': 'hash', 'C05': 'mem', 'C08': 'map', 'C09': 'vector', 'C10': 'string', 'C14': 'array'}
+FAULT_HARNESS = {'C03': 'hash', 'C04': 'hash', 'C19': 'hash', 'C05': 'mem', 'C08': 'map', 'C09': 'vector', 'C10': 'string', 'C14': 'array',
+                 # containers that never allocate on the pinned tree: the scripts run once each (there is no request to refuse) until
+                 # a change makes one of their operations allocate -- then every such request is refused in turn
+                 'C01': 'tree', 'C02': 'tree', 'C07': 'heap', 'C12': 'dlist', 'C13': 'slist', 'C11': 'sort',
+                 'C15': ['tree', 'heap', 'dlist', 'slist']}      # (the map's C15 script compares with a twin: not fault-aware)
 
 # ---------------------------------------------------------------- manifest data
 ENGINES = [
